@@ -13,8 +13,8 @@ MANIFEST = dict(
 
 FOCUS = {'terminate_job': 6, 'apply': 12, 'ack': 12, 'tick': 10, 'ready': 8, 'exit': 4}
 
-REAL_QUICK = [{'kind': 'terminate', 'state': 'busy', 'n': 2, 'job_limit': 60}, {'kind': 'terminate', 'state': 'idle', 'n': 1, 'hard': 60, 'job_soft': 30}, {'kind': 'terminate', 'state': 'busy', 'n': 2, 'maxtasks': 1, 'queued': 1}, {'kind': 'terminate_after_signal', 'n': 2, 'sig': 10}, {'kind': 'terminate', 'state': 'idle', 'n': 2}, {'kind': 'terminate', 'state': 'busy', 'n': 2, 'queued': 3}, {'kind': 'terminate', 'state': 'handler', 'n': 1}, {'kind': 'terminate', 'state': 'lock_lost', 'n': 2, 'jobs': 1}]
-REAL_THOROUGH = [{'kind': 'terminate', 'state': 'busy', 'n': 2, 'job_limit': 60}, {'kind': 'terminate', 'state': 'idle', 'n': 1, 'job_soft': 30}, {'kind': 'terminate', 'state': 'handler', 'n': 2, 'hard': 60}, {'kind': 'terminate', 'state': 'idle', 'n': 1, 'hard': 60, 'job_soft': 30}, {'kind': 'terminate', 'state': 'busy', 'n': 2, 'maxtasks': 1, 'queued': 1}, {'kind': 'terminate', 'state': 'idle', 'n': 2, 'maxtasks': 1}, {'kind': 'terminate', 'state': 'handler', 'n': 3, 'maxtasks': 2, 'queued': 2}, {'kind': 'terminate', 'state': 'lock_lost', 'n': 2, 'jobs': 1}, {'kind': 'terminate', 'state': 'lock_lost', 'n': 2, 'jobs': 2, 'queued': 2}, {'kind': 'terminate_after_signal', 'n': 2, 'sig': 10}, {'kind': 'terminate_after_signal', 'n': 1, 'sig': 10}, {'kind': 'terminate_after_signal', 'n': 2, 'sig': 2}, {'kind': 'terminate', 'state': 'idle', 'n': 1, 'queued': 0}, {'kind': 'terminate', 'state': 'idle', 'n': 1, 'queued': 5}, {'kind': 'terminate', 'state': 'idle', 'n': 2, 'queued': 0}, {'kind': 'terminate', 'state': 'idle', 'n': 2, 'queued': 5}, {'kind': 'terminate', 'state': 'idle', 'n': 4, 'queued': 0}, {'kind': 'terminate', 'state': 'idle', 'n': 4, 'queued': 5}, {'kind': 'terminate', 'state': 'busy', 'n': 1, 'queued': 0}, {'kind': 'terminate', 'state': 'busy', 'n': 1, 'queued': 5}, {'kind': 'terminate', 'state': 'busy', 'n': 2, 'queued': 0}, {'kind': 'terminate', 'state': 'busy', 'n': 2, 'queued': 5}, {'kind': 'terminate', 'state': 'busy', 'n': 4, 'queued': 0}, {'kind': 'terminate', 'state': 'busy', 'n': 4, 'queued': 5}, {'kind': 'terminate', 'state': 'handler', 'n': 1, 'queued': 0}, {'kind': 'terminate', 'state': 'handler', 'n': 1, 'queued': 5}, {'kind': 'terminate', 'state': 'handler', 'n': 2, 'queued': 0}, {'kind': 'terminate', 'state': 'handler', 'n': 2, 'queued': 5}, {'kind': 'terminate', 'state': 'handler', 'n': 4, 'queued': 0}, {'kind': 'terminate', 'state': 'handler', 'n': 4, 'queued': 5}]
+REAL_QUICK = [{'kind': 'terminate', 'state': 'lazy_imap', 'n': 2}, {'kind': 'terminate', 'state': 'busy', 'n': 2, 'job_limit': 60}, {'kind': 'terminate', 'state': 'idle', 'n': 1, 'hard': 60, 'job_soft': 30}, {'kind': 'terminate', 'state': 'busy', 'n': 2, 'maxtasks': 1, 'queued': 1}, {'kind': 'terminate_after_signal', 'n': 2, 'sig': 10}, {'kind': 'terminate', 'state': 'idle', 'n': 2}, {'kind': 'terminate', 'state': 'busy', 'n': 2, 'queued': 3}, {'kind': 'terminate', 'state': 'handler', 'n': 1}, {'kind': 'terminate', 'state': 'lock_lost', 'n': 2, 'jobs': 1}]
+REAL_THOROUGH = [{'kind': 'terminate', 'state': 'lazy_imap', 'n': 2}, {'kind': 'terminate', 'state': 'lazy_imap', 'n': 1}, {'kind': 'terminate', 'state': 'lazy_imap', 'n': 4}, {'kind': 'terminate', 'state': 'busy', 'n': 2, 'job_limit': 60}, {'kind': 'terminate', 'state': 'idle', 'n': 1, 'job_soft': 30}, {'kind': 'terminate', 'state': 'handler', 'n': 2, 'hard': 60}, {'kind': 'terminate', 'state': 'idle', 'n': 1, 'hard': 60, 'job_soft': 30}, {'kind': 'terminate', 'state': 'busy', 'n': 2, 'maxtasks': 1, 'queued': 1}, {'kind': 'terminate', 'state': 'idle', 'n': 2, 'maxtasks': 1}, {'kind': 'terminate', 'state': 'handler', 'n': 3, 'maxtasks': 2, 'queued': 2}, {'kind': 'terminate', 'state': 'lock_lost', 'n': 2, 'jobs': 1}, {'kind': 'terminate', 'state': 'lock_lost', 'n': 2, 'jobs': 2, 'queued': 2}, {'kind': 'terminate_after_signal', 'n': 2, 'sig': 10}, {'kind': 'terminate_after_signal', 'n': 1, 'sig': 10}, {'kind': 'terminate_after_signal', 'n': 2, 'sig': 2}, {'kind': 'terminate', 'state': 'idle', 'n': 1, 'queued': 0}, {'kind': 'terminate', 'state': 'idle', 'n': 1, 'queued': 5}, {'kind': 'terminate', 'state': 'idle', 'n': 2, 'queued': 0}, {'kind': 'terminate', 'state': 'idle', 'n': 2, 'queued': 5}, {'kind': 'terminate', 'state': 'idle', 'n': 4, 'queued': 0}, {'kind': 'terminate', 'state': 'idle', 'n': 4, 'queued': 5}, {'kind': 'terminate', 'state': 'busy', 'n': 1, 'queued': 0}, {'kind': 'terminate', 'state': 'busy', 'n': 1, 'queued': 5}, {'kind': 'terminate', 'state': 'busy', 'n': 2, 'queued': 0}, {'kind': 'terminate', 'state': 'busy', 'n': 2, 'queued': 5}, {'kind': 'terminate', 'state': 'busy', 'n': 4, 'queued': 0}, {'kind': 'terminate', 'state': 'busy', 'n': 4, 'queued': 5}, {'kind': 'terminate', 'state': 'handler', 'n': 1, 'queued': 0}, {'kind': 'terminate', 'state': 'handler', 'n': 1, 'queued': 5}, {'kind': 'terminate', 'state': 'handler', 'n': 2, 'queued': 0}, {'kind': 'terminate', 'state': 'handler', 'n': 2, 'queued': 5}, {'kind': 'terminate', 'state': 'handler', 'n': 4, 'queued': 0}, {'kind': 'terminate', 'state': 'handler', 'n': 4, 'queued': 5}]
 
 
 def run(res):
